@@ -114,11 +114,16 @@ type vfRecv struct {
 }
 
 func vfNewReceiver(t testing.TB, tsbdS uint64, cfg *Config) *vfRecv {
-	vfInitLog()
 	dir, err := os.MkdirTemp("", "vf-recv-")
 	if err != nil {
 		t.Fatal(err)
 	}
+	return vfNewReceiverAt(t, dir, tsbdS, cfg)
+}
+
+// vfNewReceiverAt starts a receiver on an existing storage directory (a restart keeps what was stored).
+func vfNewReceiverAt(t testing.TB, dir string, tsbdS uint64, cfg *Config) *vfRecv {
+	vfInitLog()
 	opts := Options{prefix: "/upload", storage: dir, timeShiftBufferDepthS: tsbdS}
 	if cfg == nil {
 		cfg = &Config{}
